@@ -69,11 +69,25 @@ CHECKS = {
              "saved displacements/reaction forces unchanged.",
         note="Files are read back with meshio (trusted). XDMF has no Lagrange cell types in meshio (excluded). Log-strain cell data at 2^-20 +- 8 ulp.",
         ref="5/C20"),
+    "C08": dict(
+        engine="Dof",
+        technique="TLA+ set/function specification Dof.tla (offsets, Dof(f,p,i), boundary selections, Dof0/Dof1/Ext0, documented load-case tables) "
+                  "model-checked in small scope (DofMC) and used by TLC to recompute, exactly, what real containers/boundaries/load cases return",
+        text="TLC enumerates every container of <=2 fields x <=2 points x <=2 components with every pair of dof-mask boundaries and checks the "
+             "partition theorems and last-boundary-wins on the model; on real objects (all 256 masks of a 4-point container exhaustively, seeded "
+             "random mixed/dual/three-field containers with cell-less points and overlapping boundaries of all kinds and value shapes, all "
+             "argument combinations of the four load cases on lattice meshes) TLC recomputes dof0, dof1, ext0, boundary selections, value "
+             "order, field update split, assembly rows and index arrays and compares exactly.",
+        note="Load-case semantics transcribed from the docstrings/prose; two documentation ambiguities are accepted in both readings (biaxial "
+             "half value without symmetry) or resolved towards the code comment (symmetry fixes the normal component). Coordinates are lattice integers.",
+        ref="5/C08"),
 }
 
 NOT_YET = {}
 
 ENGINES = [
+    {"name": "Dof", "path": "spec/Dof.tla", "serves_properties": ["C08"],
+     "kind_free_text": "TLA+ index algebra of unknown numbering and boundary partition; DofMC.tla small-scope model; DofTrace.tla validation"},
     {"name": "Solver", "path": "spec/Solver.tla", "serves_properties": ["C07", "C15", "C20"],
      "kind_free_text": "TLA+ state machine of Job/Step/newtonrhapson/commit protocol; SolverMC.tla (exhaustive + seeded faults + behaviour export), "
                        "SolverTrace.tla (trace validation), harness/vh/tracer.py (run-time event tracer), NewtonLaws.tla (numeric clauses)"},
